@@ -13,6 +13,7 @@ import (
 	"time"
 
 	"github.com/zitadel/saml/pkg/provider"
+	"github.com/zitadel/saml/pkg/provider/key"
 	"github.com/zitadel/saml/pkg/provider/serviceprovider"
 
 	"verif/harness/core"
@@ -47,6 +48,12 @@ func enumerateEdits(root *spsim.Node) []edit {
 			for _, k := range []string{"delete", "duplicate", "empty", "blank", "blank_nl", "huge"} {
 				out = append(out, edit{i, a, k})
 			}
+			// attributes that carry numbers get the boundary values of the usual integer types and other lexical forms
+			if n := el.Attrs[a].Name; strings.Contains(strings.ToLower(n), "index") || strings.Contains(n, "Count") {
+				for k := range c09Numbers {
+					out = append(out, edit{i, a, fmt.Sprintf("number%d", k)})
+				}
+			}
 		}
 		if len(el.Kids) == 0 && el.Text != "" {
 			out = append(out, edit{i, -1, "blank"}, edit{i, -1, "blank_nl"})
@@ -55,6 +62,8 @@ func enumerateEdits(root *spsim.Node) []edit {
 	})
 	return out
 }
+
+var c09Numbers = []string{"-1", "-0", "+1", "01", "1.0", "1e3", "0x10", " 1", "2", "7", "255", "256", "32767", "32768", "65535", "65536", "2147483647", "2147483648", "-2147483649", "4294967296", "9223372036854775807", "9223372036854775808", "-9223372036854775809", "18446744073709551616", "NaN"}
 
 // applyEdit applies the edit to a clone of root; it returns nil when the address no longer exists.
 func applyEdit(root *spsim.Node, ed edit) *spsim.Node {
@@ -88,6 +97,11 @@ func applyEdit(root *spsim.Node, ed edit) *spsim.Node {
 				el.Attrs[ed.Attr].Value = "\n\t "
 			case "huge":
 				el.Attrs[ed.Attr].Value = strings.Repeat(el.Attrs[ed.Attr].Value+"9", 3000)
+			default:
+				var k int
+				if _, err := fmt.Sscanf(ed.Kind, "number%d", &k); err == nil && k < len(c09Numbers) {
+					el.Attrs[ed.Attr].Value = c09Numbers[k]
+				}
 			}
 			return
 		}
@@ -118,9 +132,18 @@ type c09Base struct {
 	Sign bool // sign the edited message with the SP key before sending (valid signature over an odd document)
 }
 
+// c09NoIndexSP is a registration whose consumer services carry no index attribute.
+func c09NoIndexSP() *spsim.SPDesc {
+	d := stdSP(2)
+	d.AuthnRequestsSigned = ""
+	d.ACS = []spsim.ACS{{Binding: spsim.BindPost, Location: "https://sp2.example/acs/a", NoIndex: true}, {Binding: spsim.BindRedirect, Location: "https://sp2.example/acs/b", NoIndex: true}}
+	return d
+}
+
 func c09World() *env.Env {
 	e := env.Static(env.Opts{})
 	mustRegister(e.W, stdSP(0), "appA")
+	mustRegister(e.W, c09NoIndexSP(), "appNoIndex")
 	u := randUser(rand.New(rand.NewSource(3)), "U_MKc9x", false)
 	u.Username = "c09user"
 	e.W.AddUser(u)
@@ -135,6 +158,11 @@ func c09Bases(rng *rand.Rand) []c09Base {
 	a.Destination, a.ProtocolBinding, a.ACSURL = idpSSO, spsim.BindPost, sp.ACS[0].Location
 	a.NameIDPolicy, a.Conditions, a.AuthnContext, a.Scoping, a.Extensions, a.Subject = true, true, true, true, true, "subj"
 	a.NotBefore, a.NotOnOrAfter = tsNow(-time.Minute), tsNow(time.Hour)
+	// the consumer service named by index instead of URL; once for a registration whose entries carry no index
+	ai := *a
+	ai.ACSURL, ai.ProtocolBinding, ai.ACSIndex = "", "", "1"
+	an := ai
+	an.Issuer = c09NoIndexSP().EntityID
 	l := conformantLogout(rng, sp)
 	l.Style = st
 	l.Destination, l.NotOnOrAfter, l.Reason, l.SessionIndex = idpSLO, tsNow(time.Hour), "urn:x", []string{"s1", "s2"}
@@ -178,6 +206,8 @@ func c09Bases(rng *rand.Rand) []c09Base {
 	}
 	return []c09Base{
 		{Name: "authn/redirect/unsigned", Root: a.Node(), Send: sendSSO("redirect", false)},
+		{Name: "authn/post/consumer_index", Root: ai.Node(), Send: sendSSO("post", false)},
+		{Name: "authn/redirect/consumer_index/sp_without_index_attributes", Root: an.Node(), Send: sendSSO("redirect", false)},
 		{Name: "authn/redirect/query_signed", Root: a.Node(), Send: sendSSO("redirect", true)},
 		{Name: "authn/post/unsigned", Root: a.Node(), Send: sendSSO("post", false)},
 		{Name: "authn/post/signed_then_edited", Root: signedDoc(a.Node()), Send: sendSSO("post", false)},
@@ -591,6 +621,62 @@ func c09AfterFault(r *core.Run, idx int, rng *rand.Rand) {
 			}
 		}
 	}
+	// the same with faults that persist over several requests of one provider (a storage operation that keeps
+	// failing, key material that does not fit together, a signature algorithm the signer refuses), and recovery
+	judge := func(class string, what map[string]any, calls []*env.Call) {
+		r.Count("requests", int64(len(calls)))
+		r.Count("persistent_fault_sequences", 1)
+		for i, c := range calls {
+			if c.Panic != "" {
+				what["request_in_sequence"] = i
+				r.Violate(core.Violation{Clause: "panic", Class: fmt.Sprintf("%s|%s|request=%d", sc.Name, class, i), Reason: firstLine(c.Panic) + " @ " + panicSite(c.Stack), Workload: wl, Index: idx, Case: what, Observed: c.Describe()})
+			}
+		}
+	}
+	seen := map[string]bool{}
+	for _, p := range opSequence(base) {
+		if seen[p.Op] {
+			continue
+		}
+		seen[p.Op] = true
+		for _, k := range faultKinds(p.Op) {
+			e, send := sc.run(o)
+			op, kind := p.Op, k
+			e.W.Plan = func(tag, o string, occ int) string {
+				if o == op {
+					return kind
+				}
+				return ""
+			}
+			calls := []*env.Call{send(), send(), send(), e.Do(env.Req{Path: env.PathMetadata})}
+			e.W.Plan = nil
+			calls = append(calls, send(), e.Do(env.Req{Path: env.PathMetadata}))
+			judge("persistent="+op+":"+kind, map[string]any{"scenario": sc.Name, "persistent_fault": op + ":" + kind}, calls)
+		}
+	}
+	for _, conf := range []string{"alg_sha512", "alg_unknown", "alg_empty", "torn_response_pair", "torn_metadata_pair"} {
+		o2 := o
+		switch conf {
+		case "alg_sha512":
+			o2.SigAlg, o2.NoSigAlg = "http://www.w3.org/2001/04/xmldsig-more#rsa-sha512", true
+		case "alg_unknown":
+			o2.SigAlg, o2.NoSigAlg = "urn:unknown:algorithm", true
+		case "alg_empty":
+			o2.SigAlg, o2.NoSigAlg = "", true
+		}
+		e, send := sc.run(o2)
+		good := [2]*key.CertificateAndKey{e.W.RespKey, e.W.MetaKey}
+		switch conf {
+		case "torn_response_pair":
+			e.W.RespKey = &key.CertificateAndKey{Certificate: good[0].Certificate, Key: good[1].Key}
+		case "torn_metadata_pair":
+			e.W.MetaKey = &key.CertificateAndKey{Certificate: good[1].Certificate, Key: good[0].Key}
+		}
+		calls := []*env.Call{send(), send(), send(), e.Do(env.Req{Path: env.PathMetadata})}
+		e.W.RespKey, e.W.MetaKey = good[0], good[1]
+		calls = append(calls, send(), e.Do(env.Req{Path: env.PathMetadata}))
+		judge("configuration="+conf, map[string]any{"scenario": sc.Name, "configuration": conf}, calls)
+	}
 	r.Eval(fmt.Sprintf("after_fault|%s|%d", sc.Name, idx))
 }
 
@@ -698,13 +784,14 @@ func init() {
 		TimeoutQuick: 8 * time.Minute, TimeoutThorough: 60 * time.Minute,
 		Build: func(c *Ctx) []core.Workload {
 			r := c.Run
-			r.Rule = "(a) every single deletion / duplication / emptying of each element and attribute of valid AuthnRequest, LogoutRequest, AttributeQuery and SOAP envelopes (unsigned, query-signed, signed then edited, edited then signed) on all transports, thorough: all pairs of such edits; (b) every SigAlg URI known to the libraries x registered key type {RSA, ECDSA, Ed25519, DSA, none} x signature shapes x both bindings; (c) every routed and unrouted path x 9 methods x missing / duplicated / malformed parameters, content types, Forwarded / Origin headers, Host values; (d) byte-level mutations of messages and of the encoded parameter; (e) SP metadata: the same edit families on EntityDescriptor documents, garbled / wrapped / PEM-armoured / non-RSA certificates, byte mutations, followed by requests naming an accepted registration; (e2) on one provider: a request during which each storage operation fails in each way, followed by the same request and a metadata request without fault; (e3) every one-byte and many 2-4 byte payloads (raw and with container magic numbers) on every decoding endpoint; thorough (f): coverage-guided go test -fuzz on the decoders, NewServiceProvider and a whole-handler target. Monitor: recover() around ServeHTTP and NewServiceProvider, child-process death, watchdog. Distinct = structurally different inputs (by construction for the enumerations)."
+			r.Rule = "(a) every single deletion / duplication / emptying of each element and attribute of valid AuthnRequest, LogoutRequest, AttributeQuery and SOAP envelopes (unsigned, query-signed, signed then edited, edited then signed) on all transports, thorough: all pairs of such edits; (b) every SigAlg URI known to the libraries x registered key type {RSA, ECDSA, Ed25519, DSA, none} x signature shapes x both bindings; (c) every routed and unrouted path x 9 methods x missing / duplicated / malformed parameters, content types, Forwarded / Origin headers, Host values; (d) byte-level mutations of messages and of the encoded parameter; (e) SP metadata: the same edit families on EntityDescriptor documents, garbled / wrapped / PEM-armoured / non-RSA certificates, byte mutations, followed by requests naming an accepted registration; (e2) on one provider: a request during which each storage operation fails in each way, followed by the same request and a metadata request without fault; the same with faults that persist over three requests (an operation that keeps failing, certificate and key that do not belong together, a refused signature algorithm) and recovery; (e3) every one-byte and many 2-4 byte payloads (raw and with container magic numbers) on every decoding endpoint; thorough (f): coverage-guided go test -fuzz on the decoders, NewServiceProvider and a whole-handler target. Monitor: recover() around ServeHTTP and NewServiceProvider, child-process death, watchdog. Distinct = structurally different inputs (by construction for the enumerations)."
 			n := len(c09Bases(rand.New(rand.NewSource(11))))
 			r.Require("single_edits", 1500)
 			r.Require("grid_cells", 40)
 			r.Require("metadata_documents", 300)
 			r.Require("requests", 5000)
 			r.Require("fault_then_good_sequences", 80)
+			r.Require("persistent_fault_sequences", 100)
 			r.Require("one_byte_payloads", 256)
 			wls := []core.Workload{
 				{Name: "single_edits", N: n, Fn: c09Edits(false)},
